@@ -351,6 +351,8 @@ def build_op(op, pool, tables, use_knobs=True):
         return x.assign(**{op["name"]: build_expr(x, op["expr"])})
     if o == "rename":
         return x.rename(columns=op["mapping"])
+    if o == "rename_series":
+        return x.rename(op["name"])
     if o == "astype":
         return x.astype({op["column"]: op["dtype"]})
     if o == "fillna":
@@ -1105,6 +1107,13 @@ class Generator:
         if new in m.cols:
             return None
         return self.try_add({"op": "rename", "src": m.id, "mapping": {c: new}}, m.order, m.labels, m.root, m.index_kind)
+
+    def g_rename_series(self):
+        # a pure name change of a series (C05 only: the input series must not be renamed in place)
+        m = self.pick(self.series())
+        if not m:
+            return None
+        return self.try_add({"op": "rename_series", "src": m.id, "name": self.rng.choice(["r1", "r2"])}, m.order, m.labels, m.root, m.index_kind)
 
     def g_fill(self):
         m = self.pick(self.frames())
